@@ -293,19 +293,10 @@ CHECKS = {
             prefix_h([n for n in DECODE_STRUCTS if n not in ("RdaStatus", "VolumeDataBlock", "VcpElevation")]) +
             prefix_h(["RdaStatus", "VolumeDataBlock", "VcpElevation"], tier="thorough") + [
             dict(name="c08_get_datetime_total", tier="thorough", what="date conversion total on all u16 x u32 / u16 x u16 (10-13 min: thorough tier; in the quick tier the in-domain part is C08's contract harness)"),
-            dict(name="drd_q_unknown_name_0", witness=True, bounded="1 block, name byte 0 symbolic", tier="thorough", what="unknown block name: value or error, never a panic; radial conversion total"),
-            dict(name="drd_q_unknown_name_1", witness=True, bounded="1 block, name byte 1 symbolic", tier="thorough", what="same, name byte 1"),
-            dict(name="drd_q_unknown_name_2", witness=True, bounded="1 block, name byte 2 symbolic", tier="thorough", what="same, name byte 2"),
-            dict(name="drd_q_pointer_any", witness=True, bounded="1 block, pointer any u32, 80-byte message", tier="thorough", what="backwards / overlapping / out-of-range pointer: value or error"),
             dict(name="drd_q_truncated_a", witness=True, bounded="cuts at 0, 31, 32 of a 48-byte message", termination="unwind 5; the unchanged decoder needs <= 3 iterations per loop", what="truncated type-31 message is an error and decoding ends"),
             dict(name="drd_q_truncated_b", witness=True, tier="thorough", bounded="cuts at 35, 36, 39", termination="unwind 5", what="same (8 min: thorough tier)"),
             dict(name="drd_q_truncated_c", witness=True, bounded="cuts at 40, 47, 1", termination="unwind 5", what="same"),
-            dict(name="drd_q_gates_short", witness=True, bounded="gates in {5, 1840, 65535} x word 8/16, 4 data bytes present", tier="thorough", termination="unwind 5", what="declared gate bytes beyond the input: error, never a hang or a panic"),
             dict(name="drd_total_count_extreme", witness=True, bounded="block count 65535, 40-byte input", what="huge block count with short input is an error"),
-            dict(name="drd_total_name_byte0", witness=True, bounded="<=2 blocks, 80-byte fully symbolic buffer, one symbolic name byte", tier="thorough", what="type-31 decode + radial conversion: value or error"),
-            dict(name="drd_total_name_xyz", witness=True, bounded="<=2 blocks, 80-byte fully symbolic buffer, name XYZ", tier="thorough", what="unknown block name is an error"),
-            dict(name="drd_total_truncated", witness=True, bounded="every prefix of a 48-byte one-block message, contents symbolic", tier="thorough", termination="unwind 50", what="truncated type-31 message is an error"),
-            dict(name="drd_total_gates_short", witness=True, bounded="gates fully symbolic, 4 data bytes present", tier="thorough", termination="unwind 8", what="declared gate bytes beyond the input: error"),
         ])],
         trusted_base=STD_TRUST + KANI_TRUST + ["reader model (std::io)", "in-harness slice reader for the seeking decoder"],
         not_decided=["peak-memory clause: allocation sizes are functions of 8/16-bit fields (proved for the gate buffer: "
